@@ -33,11 +33,17 @@ pub struct SplineJob {
     /// the implementation sees the axis (and the queries) multiplied by this power of two and
     /// the boundary derivative values converted accordingly; the reference stays unscaled
     pub xscale: f64,
+    /// Periodic only: the last data value of every lane differs from the first by 2^-20 relative
+    /// (data that "almost closes"). build() has to reject it (C10); should it be accepted, the
+    /// result still has to be a C2 piecewise cubic through the given points (C02).
+    pub nearly_closed: bool,
 }
 
 impl SplineJob {
     pub fn key(&self) -> String {
-        if self.xscale == 1.0 {
+        if self.nearly_closed {
+            format!("{}:{}:nearly-closed", self.axis.name, self.spec.name())
+        } else if self.xscale == 1.0 {
             format!("{}:{}", self.axis.name, self.spec.name())
         } else {
             format!("{}*2^{}:{}", self.axis.name, self.xscale.log2(), self.spec.name())
@@ -161,8 +167,19 @@ pub fn run_spline_job_t<T: Fl>(job: &SplineJob, want: Want, out: &mut JobOut) {
     let periodic = job.spec.is_periodic();
     let lanes: Vec<Lane> = lanes_for(axis, periodic)
         .into_iter()
+        .map(|mut l| {
+            if job.nearly_closed {
+                let last = l.y.len() - 1;
+                l.y[last] = l.y[0] + 2.0f64.powi(-20) * (1.0 + l.y[0].abs());
+                l.name = format!("{}+2^-20", l.name);
+            }
+            l
+        })
         .filter(|l| vec_exact::<T>(&l.y).is_some())
         .collect();
+    if job.nearly_closed && (T::NAME == "f32" || !periodic) {
+        return;
+    }
     let lt: Vec<Vec<T>> = lanes
         .iter()
         .map(|l| vec_exact::<T>(&l.y).unwrap())
@@ -175,6 +192,11 @@ pub fn run_spline_job_t<T: Fl>(job: &SplineJob, want: Want, out: &mut JobOut) {
 
     let interp = match catch(|| build_spline::<T, _>(&xt, data.clone(), &spec_impl, false)) {
         Ok(Ok(i)) => i,
+        Ok(Err(_)) if job.nearly_closed => {
+            // the documented answer (C10): nothing to examine
+            out.count("nearly_closed_periodic_data_rejected_by_build", 1);
+            return;
+        }
         Ok(Err(e)) => {
             out.violate(
                 format!("{key0}:build"),
